@@ -12,6 +12,7 @@
 -/
 import Ctrmml.Proofs.CodecWalkLoops
 import Ctrmml.Proofs.CodecCall
+import Ctrmml.Proofs.CodecConv
 namespace Ctrmml.Codec
 open Ctrmml.Mds Ctrmml.Seq Ctrmml.SeqWf Tables
 
@@ -356,5 +357,59 @@ theorem walk_accepts_track (nS nM : Nat) (ta tb : List Node) (ha : linL ta = tru
   intro fuel hf
   have := walk_j_at nS nM ta tb ha hb eA eB hA hB [] (trackBytes eB) (by simp) (by simpa using hlen) fuel hf
   simpa using this
+
+/-! ### the shapes from the real side: what `convert_track` emitted IS the structured encoding -/
+
+theorem afterSegno_len (e : Enc) : e.out.length ≤ (afterSegno e).out.length := (disambP_prefix e).length_le
+
+/-- **shape (J) from the real side** -/
+theorem shape_j_conv (nS nM : Nat) (ta tb : List Node) (ha : linL ta = true) (hb : linL tb = true)
+    (ka : brkOkL false ta = true) (kb : brkOkL false tb = true) (jarg : Nat) (bytes : List Nat)
+    (h : convertTrack nS nM (flatL ta ++ [⟨mds_SEGNO, 0⟩] ++ flatL tb ++ [⟨mds_JUMP, jarg⟩]) = .ok bytes)
+    (hlen : bytes.length < 65536) :
+    ∃ eA eB, encL nS nM ta {} = .ok eA ∧ encL nS nM tb (afterSegno eA) = .ok eB ∧ bytes = trackBytes eB := by
+  obtain ⟨e', h1, rfl⟩ := convertTrack_ok h
+  obtain ⟨e3, h2, h3⟩ := encAll_append_ok h1
+  obtain ⟨e2, h4, h5⟩ := encAll_append_ok h2
+  obtain ⟨e1, h6, h7⟩ := encAll_append_ok h4
+  have h8 := encAll_single_ok h7
+  rw [encEv_segno] at h8
+  simp only [Except.ok.injEq] at h8
+  subst h8
+  have h9 := encAll_single_ok h3
+  rw [encEv_jump] at h9
+  simp only [Except.ok.injEq] at h9
+  subst h9
+  simp only [List.length_append, List.length_cons, List.length_nil] at hlen
+  have l1 := encAll_flatL_len nS nM tb hb _ _ h5
+  have l2 := afterSegno_len e1
+  have hA := encL_conv nS nM ta false ha ka {} e1 (fun h => by cases h) h6 (by omega)
+  have hB := encL_conv nS nM tb false hb kb (afterSegno e1) e3 (fun h => by cases h) h5 (by omega)
+  exact ⟨e1, e3, hA, hB, rfl⟩
+
+/-- **shape (Z) from the real side** -/
+theorem shape_z_conv (nS nM : Nat) (ta tb : List Node) (ha : linL ta = true) (hb : linL tb = true)
+    (ka : brkOkL false ta = true) (kb : brkOkL false tb = true) (farg : Nat) (bytes : List Nat)
+    (h : convertTrack nS nM (flatL ta ++ [⟨mds_SEGNO, 0⟩] ++ flatL tb ++ [⟨mds_FINISH, farg⟩]) = .ok bytes)
+    (hlen : bytes.length < 65536) :
+    ∃ eA eB, encL nS nM ta {} = .ok eA ∧ encL nS nM tb (afterSegno eA) = .ok eB ∧ bytes = eB.out ++ [mds_FINISH] := by
+  obtain ⟨e', h1, rfl⟩ := convertTrack_ok h
+  obtain ⟨e3, h2, h3⟩ := encAll_append_ok h1
+  obtain ⟨e2, h4, h5⟩ := encAll_append_ok h2
+  obtain ⟨e1, h6, h7⟩ := encAll_append_ok h4
+  have h8 := encAll_single_ok h7
+  rw [encEv_segno] at h8
+  simp only [Except.ok.injEq] at h8
+  subst h8
+  have h9 := encAll_single_ok h3
+  rw [encEv_finish] at h9
+  simp only [Except.ok.injEq] at h9
+  subst h9
+  simp only [List.length_append, List.length_cons, List.length_nil] at hlen
+  have l1 := encAll_flatL_len nS nM tb hb _ _ h5
+  have l2 := afterSegno_len e1
+  have hA := encL_conv nS nM ta false ha ka {} e1 (fun h => by cases h) h6 (by omega)
+  have hB := encL_conv nS nM tb false hb kb (afterSegno e1) e3 (fun h => by cases h) h5 (by omega)
+  exact ⟨e1, e3, hA, hB, rfl⟩
 
 end Ctrmml.Codec
